@@ -235,7 +235,10 @@ func appendLimitQuery(b *goqu.SelectDataset, limit *int64, maxLimit uint) *goqu.
 	if limit != nil {
 		l = min(l, uint(*limit))
 	}
-	if l != NoLimit {
+	if l == 0 {
+		// goqu's Limit(0) removes the limit clause instead of selecting nothing
+		b = b.Where(goqu.L("0"))
+	} else if l != NoLimit {
 		b = b.Limit(l)
 	}
 	return b
